@@ -1439,7 +1439,7 @@ Proof.
   assert (P1 : forall s p, is_run p = false -> run s [p] = (fst (step s p), [])).
   { intros s p Hp. cbn. destruct (peer_spec s p Hp) as [E _].
     destruct (step s p) as [s1 x1]; cbn in *. now subst. }
-  destruct o as [o| |].
+  destruct o as [o| | |].
   - destruct o as [i k|k|v|m| | |i].
     + exists [WinStream i k]. now rewrite P1.
     + exists [WinConn k]. now rewrite P1.
@@ -1453,6 +1453,7 @@ Proof.
     + exists [Resume; Pause]. change [Resume; Pause] with ([Resume] ++ [Pause]).
       rewrite run_app, P1 by reflexivity. rewrite P1 by reflexivity. reflexivity.
     + exists [Resume]. now rewrite P1.
+  - exists []. reflexivity.
 Qed.
 
 Lemma crun_projects ops : forall c,
@@ -1507,7 +1508,7 @@ Proof.
   { intros s Hs; unfold step; rewrite Hs; cbn. unfold do_resume. destruct (wready s) eqn:W; auto. }
   assert (Hrb : forall s, broken s = false -> broken (fst (step s Resume)) = false).
   { intros s Hs; unfold step; rewrite Hs; cbn. unfold do_resume. destruct (wready s) eqn:W; auto. }
-  destruct o as [o| |].
+  destruct o as [o| | |].
   - destruct o as [i k|k|v|m| | |i]; cbn [fst];
       try (destruct H as [H1 H2]; split; cbn [core tpaused hq];
            [rewrite wready_frame_op by reflexivity; auto|discriminate]).
@@ -1520,6 +1521,7 @@ Proof.
   - destruct (tpaused c) eqn:T; [|exact H]. destruct (hq c); cbn.
     + split; auto. apply Hp. apply Hrb; auto.
     + split; [apply Hr; auto|discriminate].
+  - destruct H as [H1 H2]. split; cbn; [auto|discriminate].
 Qed.
 
 Lemma WT_crun ops : forall c, WT c -> WT (fst (crun c ops)).
